@@ -49,6 +49,11 @@ for _A, _B, _acc in [("{x = 1}", '{x = 1, y = "s"}', ".y"), ("{}", '{a = "v"}', 
         NAMED.append('let l = [{p = %s}, {p = %s}]; let r = l.%d.p%s + "x";' % (_first, _second, _ib, _acc))
         NAMED.append('let l = [[%s], [%s]]; let r = ((l.%d).0)%s + "x";' % (_first, _second, _ib, _acc))
         NAMED.append('let l = [{p = %s}, {p = %s}, {p = %s}]; let r = l.%d.p%s + "x";' % (_first, _first, _second, 2 if _ib == 1 else 0, _acc))
+# a copy whose override replaces a nested tuple / list by a structurally wider one, then a selection of the part only the override has
+NAMED.append('let base = {opts = {port = 80}, name = "n"}; let d = base{opts = {port = 8080, host = "localhost"}}; let r = d.opts.host + "x";')
+NAMED.append('let base = {tags = ["a"]}; let d = base{tags = ["a", 1]}; let r = (d.tags).1 + 1;')
+NAMED.append('let base = {o = {}}; let d = base{o = {k = {z = 1}}}; let e = d{o = {k = {z = 1, w = "s"}}}; let r = e.o.k.w + "x";')
+NAMED.append('let m = module {cfg = {a = 1}} => (r) { let r = mod.cfg; }; let v = m{cfg = {a = 2, b = "s"}}; let r = v.a + 1;')
 KNOWN_WITNESSES = {
     "C07-list-shapes": ['let r = [1] + ["a"];', 'let r = filter(func(x) => false, [1]) + filter(func(x) => false, ["a"]);'],
     "C07-and-or-rhs": ["let x = true && 5;", 'let x = false || "s";', "let n = false && (not 5);"],
